@@ -25,7 +25,7 @@ namespace parse
 
 Calls #fcppt::parse::phrase_parse_stream with #fcppt::parse::skipper::epsilon.
 */
-template <typename Ch, typename Parser, typename Skipper>
+template <typename Ch, typename Parser>
 [[nodiscard]] inline fcppt::parse::result<Ch, fcppt::parse::result_of<Parser>>
 parse_stream(Parser const &_parser, std::basic_istream<Ch> &_input)
 {
